@@ -78,8 +78,16 @@ def typeError : Val := .exc "TypeError" .none
 def valueErr : Val := .exc "ValueError" .none
 def unsupported : Val := .exc "Unsupported" .none
 
+/-- Decimal integer literal (`repr(int)`), by plain list recursion so that it reduces in the kernel. -/
+def natOfDigits (cs : List Char) : Nat := cs.foldl (fun acc c => acc * 10 + (c.toNat - 48)) 0
+
+def intOfRepr (r : String) : Int :=
+  match r.toList with
+  | '-' :: ds => - (natOfDigits ds : Int)
+  | ds => (natOfDigits ds : Int)
+
 def constVal (kind repr : String) : Val :=
-  if kind == "int" then .int (repr.toInt?.getD 0)
+  if kind == "int" then .int (intOfRepr repr)
   else if kind == "bool" then .bool (repr == "True")
   else if kind == "NoneType" then .none
   else .str repr
@@ -147,6 +155,11 @@ def dictLoop (evalAt : Nat → St → ER Val) (isStar : Nat → Bool) (nk : Nat)
             | (.error e, σ3) => (.error e, σ3)
           | (.error e, σ2) => (.error e, σ2)
         | (.error e, σ1) => (.error e, σ1)
+
+def consArg (a : Arg) (r : ER (List Arg)) : ER (List Arg) :=
+  match r with
+  | (.ok as, σ2) => (.ok (a :: as), σ2)
+  | (.error x, σ2) => (.error x, σ2)
 
 def cmpOpsVal (O : Oracle) (op : String) (a b : Val) : Val := O.cmp op a b
 
@@ -232,25 +245,17 @@ def evalE (O : Oracle) : Expr → St → ER Val
 /-- Arguments / display elements: `Starred` and `keyword` wrappers are looked through. -/
 def evalArgs (O : Oracle) : List Expr → St → ER (List Arg)
   | [], σ => (.ok [], σ)
-  | e :: es, σ =>
-      match evalArg O e σ with
-      | (.ok a, σ1) =>
-        match evalArgs O es σ1 with
-        | (.ok as, σ2) => (.ok (a :: as), σ2)
-        | (.error x, σ2) => (.error x, σ2)
+  | .starred _ v _ :: es, σ =>
+      match evalE O v σ with
+      | (.ok x, σ1) => consArg (.star x) (evalArgs O es σ1)
       | (.error x, σ1) => (.error x, σ1)
-def evalArg (O : Oracle) : Expr → St → ER Arg
-  | .starred _ v _, σ =>
+  | .keyword _ a has v :: es, σ =>
       match evalE O v σ with
-      | (.ok x, σ1) => (.ok (.star x), σ1)
-      | (.error e, σ1) => (.error e, σ1)
-  | .keyword _ a has v, σ =>
-      match evalE O v σ with
-      | (.ok x, σ1) => (.ok (if has then .kw a x else .dstar x), σ1)
-      | (.error e, σ1) => (.error e, σ1)
-  | e, σ =>
+      | (.ok x, σ1) => consArg (if has then .kw a x else .dstar x) (evalArgs O es σ1)
+      | (.error x, σ1) => (.error x, σ1)
+  | e :: es, σ =>
       match evalE O e σ with
-      | (.ok x, σ1) => (.ok (.pos x), σ1)
+      | (.ok x, σ1) => consArg (.pos x) (evalArgs O es σ1)
       | (.error x, σ1) => (.error x, σ1)
 /-- Optional children (`NoneMarker` = absent = `None`). -/
 def evalOpts (O : Oracle) : List Expr → St → ER (List Val)
